@@ -128,6 +128,7 @@ class C02(PipelineCheck):
                         'items': [v for _, _, v in H.items], 'completed': H.eg is not None, 'in_place': tv, 'standalone': sv})
                     break
         out.digest = '|'.join(dig) + repr(final.terminal)
+        out.states = tuple(ctx.extra.get('states', ()))
         p['lifetimes_compared'] += compared
         inter = interleaving_degree(case['events'])
         out.nontrivial = compared >= 3 and (reused >= 2 or inter >= 2)
